@@ -217,6 +217,10 @@ func genCallOp(r *simrt.Rand, big *int) Op {
 	if r.Chance(1, 4) {
 		op.Flags |= FlYield
 	}
+	if r.Chance(1, 8) {
+		op.Flags |= FlEmpty // zero-length reply body under pb / bytes
+		op.Rep = 0
+	}
 	return op
 }
 
